@@ -299,9 +299,23 @@ def deepCopy (fuel : Nat) (H : Heaps) (t : Nat) (v : Val) : Option (Val × Heaps
 def spawnCopy (fuel : Nat) (H : Heaps) (t : Nat) (caps : List Val) : Option (List Val × Heaps) :=
   (copyListM (fun H' M w => deepCopyM fuel H H' M t w) H [] caps).map fun r => (r.1, r.2.1)
 
-/-! ### channels carrying raw values (`ChannelWrite` stores the `Value` itself; `ChannelRead` copies at read time) -/
+/-! ### channel messages (after fix 97d7808 of defect D23)
 
-/-- `ChannelRead` by thread `t` of the raw value `v` found at the head of the queue -/
-def chanReceive (fuel : Nat) (H : Heaps) (t : Nat) (v : Val) : Option (Val × Heaps) := deepCopy fuel H t v
+`ChannelWrite` builds a `Message`: a snapshot of the written value taken AT WRITE TIME — one node per reachable
+object in first-visit order, found through a table address ↦ node (sharing and cycles inside one message are
+kept), plain data owned by the queue entry.  `ChannelRead` rebuilds it on the reader's heap (all objects
+allocated first, in node order, then filled) and drops it.  A message therefore IS the reachable part of the
+heaps as they were when it was written, and rebuilding it is the table-based copy `deepCopyM` reading its
+sources from those heaps (`Hw`) and allocating in the heaps at read time (`Hr`) — in the same first-visit
+order.  Nothing of `Hr` is read: what the writer did to its objects after the write, or whether the writer
+still exists, cannot matter.  A channel inside a message is carried as the queue identity (an `Arc` clone). -/
+
+/-- `ChannelWrite` of `v` under the heaps `Hw`, later `ChannelRead` by thread `t` under the heaps `Hr` -/
+def chanReceive (fuel : Nat) (Hw Hr : Heaps) (t : Nat) (v : Val) : Option (Val × Heaps) :=
+  (deepCopyM fuel Hw Hr [] t v).map fun r => (r.1, r.2.1)
+
+/-- HISTORICAL: `ChannelRead` as it was before fix 97d7808 — the queue held the raw `Value` (a pointer into the
+    writer's heap) and the copy was made at read time from whatever the heaps held then (defect D23). -/
+def chanReceiveOld (fuel : Nat) (Hr : Heaps) (t : Nat) (v : Val) : Option (Val × Heaps) := deepCopy fuel Hr t v
 
 end Abra.Heap
